@@ -19,7 +19,7 @@ m = {
 }
 for p in allp:
     pid = p['id']
-    if pid in props.PROPS:
+    if pid in props.PROPS and props.PROPS[pid].get('level_text', 'TODO') != 'TODO':
         c = props.PROPS[pid]
         m["checks"].append({
             "property_id": pid,
